@@ -24,7 +24,7 @@ FUNCS = [
 def configs(tier):
     if tier == "quick":
         return [dict(T=1, nmax=5, variant="plain"), dict(T=1, nmax=5, variant="fail"), dict(T=1, nmax=4, variant="early"),
-                dict(T=2, nmax=2, variant="plain"), dict(T=2, nmax=3, variant="fail"), dict(T=2, nmax=2, variant="early")]
+                dict(T=2, nmax=2, variant="plain"), dict(T=2, nmax=2, variant="fail"), dict(T=2, nmax=2, variant="early")]
     return [dict(T=1, nmax=7, variant=v) for v in ("plain", "fail", "early")] + \
            [dict(T=2, nmax=3, variant=v) for v in ("plain", "fail", "early")] + \
            [dict(T=3, nmax=2, variant="plain"), dict(T=3, nmax=1, variant="fail"), dict(T=3, nmax=2, variant="early")]
